@@ -173,6 +173,7 @@ func FreeStream(rng *Rng, big bool) (string, Cfg) {
 	c.Closers = []bool{true}
 	c.PeerRead = rng.Intn(3)
 	c.Input = inputFrames(rng, rng.Range(0, 30), smallSizes)
+	c.WaitInput = 1
 	c.Icap = rng.PickInt(1, 4, 64)
 	name := []string{"free-stream-prompt", "free-stream-slow", "free-stream-late"}[c.PeerRead]
 	if big {
@@ -316,8 +317,11 @@ func FreeOversizeTail(rng *Rng) (string, Cfg) {
 	c.Senders = [][]PktSpec{ps}
 	c.Closers = []bool{true}
 	c.PeerRead = rng.PickInt(0, 1, 2, 2)
-	c.Input = inputFrames(rng, rng.Range(0, 3), smallSizes)
 	c.Immediate = rng.Intn(2)
+	if c.Immediate == 0 {
+		c.Input = inputFrames(rng, rng.Range(0, 3), smallSizes)
+		c.WaitInput = 1
+	}
 	return "free-oversize-tail", c
 }
 
@@ -331,7 +335,7 @@ func FreeImmediate(rng *Rng) (string, Cfg) {
 	c.Senders = [][]PktSpec{g.pkts(rng, k, smallSizes)}
 	c.Closers = []bool{true}
 	c.PeerRead = rng.Intn(3)
-	c.Input = inputFrames(rng, rng.Range(0, 4), smallSizes)
+	c.Input = nil
 	c.Immediate = 1
 	c.MaxProcs = rng.PickInt(0, 1)
 	if rng.Bool() { // writer only: Go(EndpointWriter), as the repository's own server-side handler does
